@@ -190,6 +190,9 @@ static const char *audit(void)
 		if (nets[i]->max_cached_pages < nets[i]->n_cached_pages) return "net-max";
 		for (k = 0; k < 0x800; ++k)
 			if (nets[i]->_pages[k].n_subpages != cnt_sub[i][k]) return "nsub";
+		/* round 5: max_subpages is a high-water mark of the allocated versions (Props/C10Stat.lean) */
+		for (k = 0; k < 0x800; ++k)
+			if (nets[i]->_pages[k].max_subpages < nets[i]->_pages[k].n_subpages) return "max-sub";
 	}
 	/* pages the client holds must be alive and unchanged (ASan: use after free) */
 	for (i = 0; i < n_ph; ++i)
@@ -378,6 +381,31 @@ int main(void)
 			printf("ok %d %d ", ph[v]->pgno, ph[v]->subno);
 			if (tag < 0) printf("corrupt"); else printf("%ld", tag);
 			ph_held[v] = 0; cache_page_unref(ph[v]); digest();
+		} else if (!strcmp(op, "copy") && h_ntok == 2) {
+			/* cache_page_copy: memcpy of cache_page_size (src) bytes.  The destination is a heap block of
+			   exactly that many bytes, so ASan sees a size rule that copies more than the page function
+			   needs; dst == src and src == NULL (CLEAR of a full struct) are exercised as well. */
+			cache_page *dst, *full; unsigned n, i; long tag; int zero = 1;
+			if (!NUM(1, v, 1000000)) { printf("rej parse\n"); continue; }
+			if (!PAGEH(v)) { printf("rej handle\n"); continue; }
+			n = cache_page_size(ph[v]);
+			dst = (cache_page *) malloc(n);
+			memset(dst, 0xA5, n);
+			cache_page_copy(ph[v], ph[v]);
+			cache_page_copy(dst, ph[v]);
+			tag = page_tag(dst);
+			full = (cache_page *) malloc(sizeof(*full));
+			memset(full, 0xA5, sizeof(*full));
+			cache_page_copy(full, NULL);
+			for (i = 0; i < sizeof(*full); ++i) if (((uint8_t *) full)[i]) zero = 0;
+			printf("ok %u %d %d %d %u %u %s ", n, dst->pgno, dst->subno, (int) dst->function,
+			       dst->x26_designations, dst->x28_designations,
+			       (NULL == dst->network && zero && dst->lop_packets == ph[v]->lop_packets && dst->flags == ph[v]->flags
+				&& dst->national == ph[v]->national && dst->x27_designations == ph[v]->x27_designations
+				&& 0 == memcmp(&dst->data, &ph[v]->data, data_len(ph[v]))) ? "same" : "differs");
+			if (tag < 0) printf("corrupt"); else printf("%ld", tag);
+			free(dst); free(full);
+			digest();
 		} else if (!strcmp(op, "iscached") && h_ntok == 4) {
 			cache_page *cp;
 			if (!NUM(1, v, 1000000) || !NUM(2, v2, 0xFFFF) || !NUM(3, v3, 0xFFFF)) { printf("rej parse\n"); continue; }
@@ -415,7 +443,7 @@ int main(void)
 		} else {
 			char w[64];
 			snprintf(w, sizeof w, " %.40s ", op);
-			if (strstr(" sizes dump addnet netref netunref chsw statreset ptype put get ref unref iscached hisubno foreach purge setlimit delete ", w))
+			if (strstr(" sizes dump addnet netref netunref chsw statreset ptype put get ref unref iscached hisubno foreach purge setlimit delete copy ", w))
 				printf("rej parse\n");
 			else printf("rej op\n");
 		}
